@@ -32,5 +32,14 @@ SPEC = {
 }
 
 MUTATIONS = """
-(filled in after the dry-runs)
+Dry-runs on scratch copies (VERIF_REPO=/var/tmp/mC33_<name> ./check C33 quick, inbox findings loaded):
+ vis_no_parent       CanSee: vis.Includes(parent) -> vis.Includes(label) (hidden sub-targets no longer act as their parent)
+                     exit 1: fact canSeeSteps changed (11/12), 21 disagreements, oracle: visibility-too-strict with a concrete `cs` line
+ exp_ban_dropped     CanSee: `dep experimental && !label experimental` -> `&& label experimental`
+                     exit 1: facts changed, 21 disagreements, oracle: visibility-deviates (outside target sees experimental one), visibility-too-strict
+ testonly_skip       CheckDependencyVisibility: `!target.TestOnly` -> `target.TestOnly`
+                     exit 1: fact checkSteps changed, 22 disagreements, oracle: check-deviates with a concrete `cd` line
+ exp_exempt_dropped  CanSee: experimental exemption disabled (`if false && label.isExperimental(state)`)
+                     exit 1: facts changed, 22 disagreements, oracle: visibility-too-strict
+ harmless33          renamed the locals `parent`->`owner`, `vis`->`entry` in CanSee          exit 0, 12/12, 0 disagreements
 """
